@@ -130,6 +130,24 @@ def search(budget):
                         fail("main", "exit %r, printed %r; split() gives %r" % (rc, got[:4], exp[:4]), argv=argv)
                     if time.time() - t0 > budget:
                         return n
+        # stereo input with -u: the channel selection reaches the tokenizer
+        L, R = "aAAAAaaaaaaaaaaa", "aaaaaaaaAAAAAaaa"
+        sdata = b"".join(struct.pack("<2h", (20000 if L[i // B] == "A" else 0) * (1 if i % 2 == 0 else -1),
+                                     (20000 if R[i // B] == "A" else 0) * (1 if i % 2 == 0 else -1)) for i in range(len(L) * B))
+        swav = os.path.join(tmp, "st.wav")
+        with wave.open(swav, "wb") as f:
+            f.setframerate(sr); f.setsampwidth(2); f.setnchannels(2); f.writeframes(sdata)
+        for u in (None, "0", "1", "mix"):
+            n += 1
+            kws = dict(min_dur=0.02, max_dur=5, max_silence=0.01, analysis_window=0.01, energy_threshold=50)
+            uc = None if u is None else (int(u) if u.isdigit() else u)
+            regs = list(split(sdata, sr=sr, sw=2, ch=2, use_channel=uc, **kws))
+            exp = ["%d %s %s" % (i + 1, ref_fmt(r.start, "%S"), ref_fmt(r.end, "%S")) for i, r in enumerate(regs)]
+            argv = [swav, "-n", "0.02", "-s", "0.01", "--printf", "{id} {start} {end}"] + ([] if u is None else ["-u", u])
+            rc, out, err = run_main(argv)
+            if rc != 0 or out.strip().splitlines() != exp:
+                fail("main", "stereo wav with -u %s: printed %r; split(use_channel=%r) gives %r" % (u, out.strip().splitlines()[:4], uc, exp[:4]),
+                     argv=argv)
         # a --printf template with non-ASCII text and escapes
         n += 1
         tpl = "[{id}] {start} \u2192 {end}\\td\u00e9tection"
